@@ -118,8 +118,11 @@ func (w *world) warmup() {
 		}
 		w.noteAndIssue(c, &opSpec{Kind: kSetclientid, LongID: c.longID, Verifier: c.verifier})
 		w.noteAndIssue(c, &opSpec{Kind: kSetclientidConfirm, ClientID: c.cid, Confirm: c.confirm})
-		if w.prof.warmOpen && c.confirmed != 0 {
-			o := c.owners[0]
+		for k := 0; k < 2 && w.prof.warmOpen && c.confirmed != 0; k++ {
+			if k == 1 && !w.pct(40, "warmSecondOwner") {
+				break
+			}
+			o := c.owners[k]
 			w.noteAndIssue(c, &opSpec{Kind: kOpen, ClientID: c.confirmed, FH: "root", Owner: o.key, Seq: nextSeq(o.seq), Name: "a", Access: 3, How: "unchecked"})
 			if len(o.opens) == 1 {
 				w.noteAndIssue(c, &opSpec{Kind: kOpenConfirm, FH: o.opens[0].fh, Owner: o.key, Seq: nextSeq(o.seq), Stateid: o.opens[0].sid})
@@ -161,7 +164,7 @@ var profC18 = &profile{
 		kRead: 3, kWrite: 3, kSetattr: 1, kRemove: 2, kLookup: 1, kPutfh: 3,
 		kSetclientid: 2, kSetclientidConfirm: 3, kRenew: 2, "advance": 3, "vanish": 1, "release": 6, "retx": 1,
 	}),
-	minSteps: 25, maxSteps: 90, devPct: 12, parkPct: 15, warmPct: 90, confirmPct: 85,
+	minSteps: 25, maxSteps: 90, devPct: 12, parkPct: 15, warmPct: 90, confirmPct: 85, sharedLO: true,
 	nontrivial: func(ev, labels map[string]int) bool {
 		return (ev["open_upgrade"] > 0 || ev["downgrade"] > 0) && ev["lock_owner_cloned_share"] > 0 && (ev["reclaim_by_expiry"] > 0 || ev["reclaim_by_reregistration"] > 0)
 	},
@@ -175,7 +178,7 @@ var profC19 = &profile{
 		kSetclientid: 1, kSetclientidConfirm: 2, kRenew: 1, "advance": 2, "release": 7,
 		"retx": 10, "retx_diff_op": 3, "retx_diff_sid": 3,
 	}),
-	minSteps: 15, maxSteps: 60, devPct: 10, parkPct: 25, warmPct: 90, confirmPct: 85,
+	minSteps: 15, maxSteps: 60, devPct: 10, parkPct: 25, warmPct: 90, confirmPct: 85, sharedLO: true,
 	nontrivial: func(ev, labels map[string]int) bool {
 		return ev["replay_ok_open"] > 0 || ev["replay_ok_close"] > 0 || ev["replay_ok_lock"] > 0
 	},
